@@ -24,6 +24,7 @@ def _table():
 
 def receivers(t):
     """(name, factory) - the factory builds a fresh, structurally identical receiver each time"""
+    import polars as pl
     import pydiverse.transform as pdt
 
     return [
@@ -39,6 +40,10 @@ def receivers(t):
         ("agg_part", lambda: t.a.sum(partition_by=t.b)),
         ("cast", lambda: t.a.cast(pdt.Float64())),
         ("cname", lambda: pdt.C.a + 1),
+        # expressions that carry a polars Series / a sub-expression evaluated on its own table (Polars backend)
+        ("eval_aligned_series", lambda: pdt.eval_aligned(t.a * 100 + pl.Series("sr", [10, 20, 30, 40, 50]))),
+        ("eval_aligned_cname", lambda: pdt.eval_aligned(pdt.C.a + pl.Series("sr", [10, 20, 30, 40, 50]))),
+        ("eval_aligned_with", lambda: pdt.eval_aligned(t.a + t.b, with_=t)),
     ]
 
 
